@@ -114,14 +114,14 @@ Qed.
 (* the items of the reconciled program are the reconciled items of the program *)
 Lemma c09_items_cases it' : In it' (items_of pd') ->
   (exists a, In a (p_aliases pd) /\ it' = ItAlias (c09_ra rn a)) \/ (exists s, In s (p_structs pd) /\ it' = ItStruct (c09_rs rn s)) \/
-  (exists e, In e (p_enums pd) /\ it' = ItEnum (c09_re rn e)) \/ (exists c, In c (p_consts pd) /\ it' = ItConst c).
+  (exists e, In e (p_enums pd) /\ it' = ItEnum (c09_re rn e)) \/ (exists c, In c (p_consts pd) /\ it' = ItConst (c09_rc rn c)).
 Proof.
   pose proof c09_dom_imports as Himp. unfold items_of. rewrite !in_app_iff, !in_map_iff.
   intros [(a' & <- & Ha')|[(s' & <- & Hs')|[(e' & <- & He')|(c & <- & Hc)]]].
   - left. apply (c09_aliases' pd Himp) in Ha' as (a & Ha & ->). eauto.
   - right. left. apply (c09_structs' pd Himp) in Hs' as (s & Hs & ->). eauto.
   - right. right. left. apply (c09_enums' pd Himp) in He' as (e & He & ->). eauto.
-  - right. right. right. apply (c09_consts' pd) in Hc. eauto.
+  - right. right. right. apply (c09_consts' pd Himp) in Hc as (c0 & Hc & ->). eauto.
 Qed.
 Lemma c09_items_alias a : In a (p_aliases pd) -> In (ItAlias (c09_ra rn a)) (items_of pd').
 Proof. intros H. unfold items_of. apply in_or_app. left. apply in_map. apply (c09_aliases' pd c09_dom_imports). eauto. Qed.
